@@ -1212,7 +1212,25 @@ def c18_group(case):
         attrs = [{"g1": "twp", "g2": "sec"}[x] for x in a["attrs"]]
         arg = attrs if (len(attrs) > 1 or a.get("as_list")) else attrs[0]
         cls = type(lst)
-        if a["nested"]:
+        how = a.get("how", "method")
+        if how == "into" and len(lst) >= 2:
+            # grouped in two batches: the second batch goes `into` the dict of the first (documented parameter)
+            half = len(lst) // 2
+            first, second = cls(list(lst)[:half]), cls(list(lst)[half:])
+            dct = first.group_by_nested(arg) if a["nested"] else first.group_by(arg)
+            ret = second.group_by_nested(arg, into=dct) if a["nested"] else second.group_by(arg, into=dct)
+            if ret is not dct:
+                raise AssertionError("group_by(into=d) returned another dict")
+        elif how == "function" and cls is pytrs.TractList and not a["nested"]:
+            dct = pytrs.group_tracts_by(list(lst), arg)         # the module-level function, on a plain list
+        elif how == "plss" and cls is pytrs.TractList:
+            dd = pytrs.PLSSDesc("T1N-R1W Sec 1: NE/4")
+            dd.tracts = lst
+            dct = dd.group_by_nested(arg) if a["nested"] else dd.group_by(arg)
+        elif how == "sorted":
+            # sort_key='i' sorts every group by creation order - which is the order the elements were built in
+            dct = lst.group_by_nested(arg, sort_key="i") if a["nested"] else lst.group_by(arg, sort_key="i")
+        elif a["nested"]:
             dct = lst.group_by_nested(arg)
         else:
             dct = lst.group_by(arg)
